@@ -30,6 +30,15 @@ pub struct Case {
     pub file: bool,
     pub docs: u8,
     pub steps: Vec<Step>,
+    /// the crate clock (the one entries are stamped with, settable through the clock hook): 0 = the real clock, 1 = pinned to
+    /// one value for the whole history, 2 = coarse (one microsecond tick per three steps). Recency is "order of registration",
+    /// whatever the entry clock says
+    #[serde(default)]
+    pub clock: u8,
+    /// peer lists written by an earlier run of the program an hour ago (file stores only): (document, peer) rows, oldest
+    /// first, put into the peers table with plain redb before the store is opened for the history
+    #[serde(default)]
+    pub earlier: Vec<(u8, u8)>,
 }
 
 fn peer(i: u8) -> [u8; 32] {
@@ -65,8 +74,14 @@ impl Prop for C17 {
             1 => (0u8..3).prop_map(Step::Recreate),
             3 => crate::gen::noise().prop_map(Step::Noise),
         ];
-        (prop::bool::weighted(0.3), 1u8..=3, vec(step, 1..=max))
-            .prop_map(|(file, docs, steps)| Case { file, docs, steps })
+        (
+            prop::bool::weighted(0.3),
+            1u8..=3,
+            vec(step, 1..=max),
+            prop_oneof![6 => Just(0u8), 2 => Just(1u8), 2 => Just(2u8)],
+            prop_oneof![2 => Just(vec![]), 1 => vec((0u8..3, 0u8..9), 1..=8)],
+        )
+            .prop_map(|(file, docs, steps, clock, earlier)| Case { file, docs, steps, clock, earlier: if file { earlier } else { vec![] } })
             .boxed()
     }
 
@@ -81,10 +96,49 @@ impl Prop for C17 {
             }
             let missing = namespace(5).id();
             let mut model: Vec<Vec<[u8; 32]>> = vec![vec![]; c.docs as usize];
+            if c.file && !c.earlier.is_empty() {
+                // rows of an earlier run: stamped in nanoseconds of the wall clock, one hour ago, in this order
+                es(st.store.flush())?;
+                let path = st.path.clone().ok_or("file store without a path")?;
+                drop(st);
+                {
+                    const PEERS: redb::MultimapTableDefinition<&[u8; 32], (u64, &[u8; 32])> = redb::MultimapTableDefinition::new("sync-peers-1");
+                    let now_ns = std::time::SystemTime::UNIX_EPOCH.elapsed().map(|d| d.as_nanos() as u64).map_err(|e| e.to_string())?;
+                    let base = now_ns - 3_600_000_000_000;
+                    let db = es(redb::Database::create(&path))?;
+                    let tx = es(db.begin_write())?;
+                    {
+                        let mut t = es(tx.open_multimap_table(PEERS))?;
+                        for (i, (d, p)) in c.earlier.iter().enumerate() {
+                            let d = *d as usize % docs.len();
+                            // the earlier run kept the invariants of the list: a peer at most once, at most five per document
+                            if model[d].contains(&peer(*p)) || model[d].len() >= 5 {
+                                continue;
+                            }
+                            es(t.insert(docs[d].as_bytes(), (base + i as u64 * 1_000, &peer(*p))))?;
+                            model[d].insert(0, peer(*p));
+                        }
+                    }
+                    es(tx.commit())?;
+                }
+                st = AnyStore { store: es(iroh_docs::store::Store::persistent(&path))?, path: Some(path) };
+                o.class("peer-lists-written-by-an-earlier-run");
+            }
+            match c.clock {
+                1 => {
+                    iroh_docs::verif::set_clock(Some(T0 + 3));
+                    o.class("entry-clock-pinned");
+                }
+                2 => o.class("entry-clock-coarse"),
+                _ => {}
+            }
             let mut exists = vec![true; c.docs as usize];
             let mut noise_state = NoiseState::default();
             let mut regs: Vec<(usize, std::collections::BTreeSet<u8>, bool)> = vec![(0, Default::default(), false); c.docs as usize];
             for (i, s) in c.steps.iter().enumerate() {
+                if c.clock == 2 {
+                    iroh_docs::verif::set_clock(Some(T0 + (i as u64) / 3));
+                }
                 match s {
                     Step::Register(d, p) => {
                         let d = *d as usize;
@@ -177,6 +231,7 @@ impl Prop for C17 {
             st.cleanup();
             Ok(())
         })();
+        iroh_docs::verif::set_clock(None);
         if let Err(e) = r {
             o.fail("C17/harness-error", e);
         }
